@@ -1,3 +1,116 @@
-import DaskArrayModel.Model.Slicing
+/-
+C13 — Slice algebra helpers are exact.  ONLY property theorems (restated; proofs are
+one-liners from Lemmas/*) and non-vacuity examples.  Every statement is for ALL axis
+lengths, ALL chunkings (zero-length chunks included) and ALL slices.
+-/
+import DaskArrayModel.Lemmas.Slice1dPos
+import DaskArrayModel.Lemmas.Slice1dNeg
+import DaskArrayModel.Lemmas.SliceAlgebra
 namespace Dask.Props.C13
+open Dask.Py Dask.Py.PySlice Dask.Slicing
+
+/-- The per-block plan of `_slice_1d` partitions exactly the selected positions, in order
+(positive step: ascending block order). -/
+theorem slice1d_partition_pos (lengths : List Int) (s : PySlice)
+    (hl : ∀ c ∈ lengths, 0 ≤ c) (hs : 0 < s.stp) :
+    planPositions lengths (sortByKey (slice1d (isum lengths) lengths (normalizeSlice s (isum lengths))))
+      = sel s (isum lengths) :=
+  Dask.Lemmas.Slice1dPos.slice1d_partition_pos lengths s hl hs
+
+/-- … negative step: descending block order (as `SliceSlicesIntegers._layer` numbers the outputs). -/
+theorem slice1d_partition_neg (lengths : List Int) (s : PySlice)
+    (hl : ∀ c ∈ lengths, 0 ≤ c) (hs : s.stp < 0) :
+    planPositions lengths (sortByKey (slice1d (isum lengths) lengths (normalizeSlice s (isum lengths)))).reverse
+      = sel s (isum lengths) :=
+  Dask.Lemmas.Slice1dNeg.slice1d_partition_neg lengths s hl hs
+
+/-- both signs at once, in output-block order -/
+theorem slice1d_partition (lengths : List Int) (s : PySlice)
+    (hl : ∀ c ∈ lengths, 0 ≤ c) (hs : s.stp ≠ 0) :
+    planPositions lengths (orderedPlan s.stp (slice1d (isum lengths) lengths (normalizeSlice s (isum lengths))))
+      = sel s (isum lengths) := by
+  unfold orderedPlan
+  by_cases h : s.stp < 0
+  · simp only [h, ↓reduceIte]; exact slice1d_partition_neg lengths s hl h
+  · simp only [h, ↓reduceIte]; exact slice1d_partition_pos lengths s hl (by omega)
+
+/-- block numbers of the plan are distinct and name existing blocks -/
+theorem slice1d_keys_pos (lengths : List Int) (s : PySlice)
+    (hl : ∀ c ∈ lengths, 0 ≤ c) (hs : 0 < s.stp) :
+    let plan := slice1d (isum lengths) lengths (normalizeSlice s (isum lengths))
+    List.Pairwise (· < ·) (plan.map (·.1)) ∧ ∀ p ∈ plan, p.1 < max 1 lengths.length :=
+  Dask.Lemmas.Slice1dPos.slice1d_keys_pos lengths s hl hs
+
+theorem slice1d_keys_neg (lengths : List Int) (s : PySlice)
+    (hl : ∀ c ∈ lengths, 0 ≤ c) (hs : s.stp < 0) :
+    let plan := slice1d (isum lengths) lengths (normalizeSlice s (isum lengths))
+    List.Pairwise (· > ·) (plan.map (·.1)) ∧ ∀ p ∈ plan, p.1 < max 1 lengths.length :=
+  Dask.Lemmas.Slice1dNeg.slice1d_keys_neg lengths s hl hs
+
+/-- `new_blockdim` sums to the selection length and equals the per-block piece lengths -/
+theorem newBlockdim_pos (lengths : List Int) (s : PySlice)
+    (hl : ∀ c ∈ lengths, 0 ≤ c) (hs : 0 < s.stp) :
+    let dim := isum lengths
+    let idx := normalizeSlice s dim
+    isum (newBlockdim dim lengths idx) = ((sel s dim).length : Int) ∧
+    ((sel s dim) ≠ [] → newBlockdim dim lengths idx = planLengths lengths (sortByKey (slice1d dim lengths idx))) :=
+  Dask.Lemmas.Slice1dPos.newBlockdim_pos lengths s hl hs
+
+theorem newBlockdim_neg (lengths : List Int) (s : PySlice)
+    (hl : ∀ c ∈ lengths, 0 ≤ c) (hs : s.stp < 0) :
+    let dim := isum lengths
+    let idx := normalizeSlice s dim
+    isum (newBlockdim dim lengths idx) = ((sel s dim).length : Int) ∧
+    ((sel s dim) ≠ [] → newBlockdim dim lengths idx = planLengths lengths (sortByKey (slice1d dim lengths idx)).reverse) :=
+  Dask.Lemmas.Slice1dNeg.newBlockdim_neg lengths s hl hs
+
+/-! non-vacuity: concrete, non-trivial instances of the hypotheses and both sides -/
+example : planPositions [15,14,13] (sortByKey (slice1d 42 [15,14,13] (normalizeSlice ⟨some 10, some 41, some 3⟩ 42)))
+    = [10,13,16,19,22,25,28,31,34,37,40] := by decide
+example : planPositions [2,0,1] (sortByKey (slice1d 3 [2,0,1] (normalizeSlice ⟨none, none, some (-1)⟩ 3))).reverse
+    = [2,1,0] := by decide
+example : newBlockdim 100 [20,10,20,10,40] (normalizeSlice ⟨some 90, some 10, some (-2)⟩ 100) = [16,5,10,5,4] := by decide
+
+/-- `normalize_slice` preserves the selected positions, for every slice and axis length. -/
+theorem sel_normalizeSlice (s : PySlice) (n : Int) (hn : 0 ≤ n) (hs : s.stp ≠ 0) :
+    sel (normalizeSlice s n) n = sel s n :=
+  Dask.Lemmas.SliceAlgebra.sel_normalizeSlice s n hn hs
+
+/-- every selected position is in bounds -/
+theorem sel_bounds (s : PySlice) (n : Int) (hn : 0 ≤ n) (hs : s.stp ≠ 0) :
+    ∀ p ∈ sel s n, 0 ≤ p ∧ p < n :=
+  Dask.Lemmas.SliceAlgebra.sel_bounds s n hn hs
+
+/-- `fuse_slice(a, b)` selects what applying `a` then `b` selects (two slices). -/
+theorem fuseSliceSlice_sel (a b f : PySlice) (n : Int) (hn : 0 ≤ n)
+    (h : fuseSliceSlice a b = .ok f) :
+    sel f n = (sel b ((sel a n).length : Int)).filterMap (fun i => (sel a n)[i.toNat]?) :=
+  Dask.Lemmas.SliceAlgebra.fuseSliceSlice_sel a b f n hn h
+
+/-- `fuse_slice(a, b)` for an in-range integer `b`. -/
+theorem fuseSliceInt_sel (a : PySlice) (b r : Int) (n : Int) (hn : 0 ≤ n)
+    (h : fuseSliceInt a b = .ok r) (hb : b < ((sel a n).length : Int)) :
+    (sel a n)[b.toNat]? = some r :=
+  Dask.Lemmas.SliceAlgebra.fuseSliceInt_sel a b r n hn h hb
+
+/-- `fuse_slice` refuses (NotImplementedError) exactly when some start/stop/step is negative. -/
+theorem fuseSliceSlice_error_iff (a b : PySlice) :
+    (∃ f, fuseSliceSlice a b = .ok f) ↔
+      (0 ≤ a.start.getD 0 ∧ 0 ≤ a.step.getD 1 ∧ 0 ≤ a.stop.getD 0 ∧
+       0 ≤ b.start.getD 0 ∧ 0 ≤ b.step.getD 1 ∧ 0 ≤ b.stop.getD 0) :=
+  Dask.Lemmas.SliceAlgebra.fuseSliceSlice_error_iff a b
+
+/-- `_compose_slices` for positive steps selects what outer-then-inner selects. -/
+theorem composeSlices_sel (outer inner : PySlice) (n : Int) (hn : 0 ≤ n)
+    (ho : 0 < outer.stp) (hi : 0 < inner.stp) :
+    sel (composeSlices outer inner n) n =
+      (sel inner ((sel outer n).length : Int)).filterMap (fun i => (sel outer n)[i.toNat]?) :=
+  Dask.Lemmas.SliceAlgebra.composeSlices_sel outer inner n hn ho hi
+
+example : fuseSliceSlice ⟨some 1, some 20, some 2⟩ ⟨some 1, none, some 3⟩ = .ok ⟨some 3, some 20, some 6⟩ := by rfl
+example : sel (normalizeSlice ⟨some (-3), none, some (-1)⟩ 1) 1 = [] ∧ sel ⟨some (-3), none, some (-1)⟩ 1 = [] := by decide
+/-- the positivity hypothesis of `composeSlices_sel` is needed: a negative outer step breaks the formula
+(`FromArray._accept_slice` only composes unit steps; checked by correspondence in C24). -/
+example : sel (composeSlices ⟨none, none, some (-1)⟩ ⟨none, none, none⟩ 3) 3 ≠ [2, 1, 0] := by decide
+
 end Dask.Props.C13
